@@ -455,6 +455,12 @@ theorem C11_no_panic {σ : Type} (V : MsgValidator σ) (cc : CtxCfg) (R : Sched)
   · exact ⟨_, (writeMessageVG_spec V R o h s vs m hn hs).1, (writeMessageVG_spec V R o h s vs m hn hs).2⟩
   · exact ⟨_, (sequenceCompletedVG_spec V R sc o h s vs hn ho hs).1, (sequenceCompletedVG_spec V R sc o h s vs hn ho hs).2⟩
 
+/-- the hypotheses are met by what the API produces: every header `encodeFileHeader` has normalised (`Wire.mkHdr`, the function the
+driver builds its headers with) and every option set `WithHeaderOption` can make (`localMessageType + 1`) -/
+example (size pv prof dflt : Nat) : HdrNorm (mkHdr size pv prof dflt) := mkHdr_norm size pv prof dflt
+example : HdrNorm Witness.h ∧ 0 < Witness.o.lruCap ∧ (Enc.new Witness.o .seek 4 ⟨[], 0, []⟩).Safe :=
+  ⟨Or.inr rfl, by decide, Enc.Safe.new _ _ _ _ (by decide)⟩
+
 /-- THE GUARDED MODEL IS THE MODEL: where no guard fails — everywhere, by `C11_no_panic` — a guarded call returns exactly what
 the model of `FitModel/WriterShort.lean` says (which on contract-abiding schedules is the model of `FitModel/Writer.lean`:
 `C11_short_write_model_refines`); so every theorem of C09 / C11 about `encodeV`, `writeMessageV`, `sequenceCompletedV` speaks about
